@@ -91,10 +91,11 @@ theorem preloaded_step (ammos : List α) (b : Bounds) (cancelAt : Option Nat) (f
   by_cases hc : cancelled cancelAt out.length = true
   · simp [hc, mapped, hmap, mapSentinel]
   · simp only [hc, Bool.false_eq_true, if_false]
+    -- by cases on the two bound tests, not on their order in the source
+    by_cases hp : b.passes ≠ 0 ∧ b.passes ≤ k / ammos.length <;>
+    by_cases hl : b.limit ≠ 0 ∧ b.limit ≤ k <;>
     cases hg : ammos[k % ammos.length]? <;>
-    · repeat' split
-      all_goals simp_all [mapped, mapSentinel]
-      all_goals omega
+    simp [hp, hl, hg, mapped, mapSentinel, hmap, ge_iff_le]
 
 /-! ## the streaming path: runFullScan applies the filter to what Decoder.Scan returned -/
 
